@@ -351,6 +351,17 @@ pub fn gen_random(seed: u64, idx: u64, tier: Tier) -> Plan {
         fit_c2s(&mut c);
         conns.push(c);
     }
+    // One run in four also has a websocket handshake (complete or not): the
+    // 101 - or the 400 - is a response to a well-formed request like any
+    // other and carries the request id.
+    if !versioned && r.chance(1, 4) {
+        let mut wc = super::c20::gen_ws_conn(&mut r, &mut nonce, 8100, false, tls);
+        if tls {
+            wc.kind = ConnKind::Tls;
+            fit_c2s(&mut wc);
+        }
+        conns.push(wc);
+    }
     Plan {
         property: "C13".into(),
         seed: mix(seed, idx),
@@ -681,6 +692,11 @@ pub fn check_c13(plan: &Plan, out: &Outcome, probes: &mut Vec<&'static str>) -> 
                     }
                     if op == "hdr" && resp.header_str("x-sim-extra") != Some(format!("n{}", rq.nonce)) {
                         v.push(Violation { rule: "c13.ok_headers".into(), detail: format!("nonce {}: x-sim-extra {:?}", rq.nonce, resp.header_str("x-sim-extra")) });
+                    }
+                }
+                Expect::Ws { .. } => {
+                    if resp.status == 101 {
+                        probes.push("switching_protocols_request_id_checked");
                     }
                 }
                 _ => {}
